@@ -142,8 +142,29 @@ def audit(prop_id, thorough=False):
     return res
 
 
+def regen_twins():
+    """Regenerate lean/Gen/Kernels.lean from the current source of REPO (tools/py2lean.py); the file is
+    rewritten only when its content changes.  Returns the translator's report."""
+    lock = LEAN / ".lake-build.lock"
+    with open(lock, "w") as fh:
+        fcntl.flock(fh, fcntl.LOCK_EX)
+        try:
+            p = subprocess.run([sys.executable, str(VERIF / "tools" / "py2lean.py"), str(REPO), str(LEAN / "Gen" / "Kernels.lean")],
+                               capture_output=True, text=True, timeout=300)
+        finally:
+            fcntl.flock(fh, fcntl.LOCK_UN)
+    if p.returncode != 0:
+        raise ToolFailure("py2lean failed: " + (p.stdout + p.stderr)[-800:])
+    return json.loads(p.stdout.strip().splitlines()[-1])
+
+
+TWIN_REPORT = {}
+
+
 def run_driver(requests, timeout=3600):
-    """Send request dicts to the compiled Lean driver; returns list of response dicts."""
+    """Send request dicts to the compiled Lean driver; returns list of response dicts.  The generated
+    twins are refreshed from /repo's current source first."""
+    TWIN_REPORT.update(regen_twins())
     ok, log = build(["driver"])
     if not ok:
         raise ToolFailure("driver build failed: " + log[-1500:])
